@@ -20,7 +20,8 @@ INFO_MATCH = ['info.SectionInfo.isAllowedName', 'info.SectionInfo.allowUnnamed',
               'info.SectionType.getsectioninfo', 'info.SectionType.gettype', 'info.AbstractType.getsubtype',
               'info.AbstractType.hassubtype', 'info.SectionType.__len__', 'info.SectionType.__getitem__',
               'info.ValueInfo.__init__', 'info.ValueInfo.convert']
-MATCHER = ['matcher.BaseMatcher.__init__', 'matcher.BaseMatcher.addValue']
+MATCHER = ['matcher.BaseMatcher.__init__', 'matcher.BaseMatcher.addValue', 'matcher.BaseMatcher.addSection',
+           'matcher.SectionMatcher.__init__', 'matcher.BaseMatcher.createChildMatcher']
 
 PROPS = {
     'C01': {'functions': INFO_MATCH + MATCHER, 'standin': True},
